@@ -217,8 +217,16 @@ func runCodec(seed uint64, n int, t *Trace) {
 				stream = append(stream, w.Serialize()...)
 				ws = append(ws, canonWeek(w))
 			}
-			if r.Chance(25) && len(stream) > 0 {
-				stream = stream[:len(stream)-1-r.Intn(70)]
+			if r.Chance(45) && len(stream) > 0 {
+				// cut the tail: half of the time by 1..5 bytes (inside the signature / the offset field in front of it)
+				cut := 1 + r.Intn(70)
+				if r.Chance(50) {
+					cut = 1 + r.Intn(5)
+				}
+				if r.Chance(15) {
+					cut = 64 + r.Intn(5) // around the boundary between timeslot offset and signature
+				}
+				stream = stream[:len(stream)-cut]
 			}
 			t.Count("stream")
 			t.Line("codec.stream.dec b=%s => %s", hx(stream), canonStream(stream))
@@ -272,6 +280,9 @@ func canonStream(b []byte) string {
 		w, n, err := server.DeserializeStreamAllDeviceStats(b)
 		if err != nil {
 			return "none"
+		}
+		if n > len(b) || n <= 0 {
+			return fmt.Sprintf("OVERRUN:consumed %d of %d bytes", n, len(b))
 		}
 		ws = append(ws, canonWeek(w)+"/"+hx(w.Signature[:]))
 		b = b[n:]
